@@ -122,11 +122,11 @@ func specGenuineER6(s *icmpDriver, p *packets.FrameParser, t uint8) bool {
 //@ requires[pre.past]       forall(k, 0, 256, s.sentProbes[k] <= now())
 //@ ensures[C09.xor]         (ret0 == nil) != (ret1 == nil)
 //@ ensures[C09.class]       ret1 != nil ==> chain(ret1, *common.ReceiveProbeNoPktError) || chain(ret1, *common.BadPacketError)
-//@ ensures[C01+C11.sound.kind]  ret0 != nil ==> specIsTE4(parser) || specIsER4(parser) || specIsTE6(parser) || specIsER6(parser)
-//@ ensures[C01+C11.sound.te4]   ret0 != nil && specIsTE4(parser) ==> specGenuineTE4(s, parser, ret0.TTL)
-//@ ensures[C01+C11.sound.er4]   ret0 != nil && specIsER4(parser) ==> specGenuineER4(s, parser, ret0.TTL)
-//@ ensures[C01+C11.sound.te6]   ret0 != nil && specIsTE6(parser) && packets.SpecQ6Next(parser.ICMP6.Payload) != 0 ==> specGenuineTE6(s, parser, ret0.TTL)
-//@ ensures[C01+C11.sound.er6]   ret0 != nil && specIsER6(parser) ==> specGenuineER6(s, parser, ret0.TTL)
+//@ ensures[C01+C05+C11.sound.kind]  ret0 != nil ==> specIsTE4(parser) || specIsER4(parser) || specIsTE6(parser) || specIsER6(parser)
+//@ ensures[C01+C05+C11.sound.te4]   ret0 != nil && specIsTE4(parser) ==> specGenuineTE4(s, parser, ret0.TTL)
+//@ ensures[C01+C05+C11.sound.er4]   ret0 != nil && specIsER4(parser) ==> specGenuineER4(s, parser, ret0.TTL)
+//@ ensures[C01+C05+C11.sound.te6]   ret0 != nil && specIsTE6(parser) && packets.SpecQ6Next(parser.ICMP6.Payload) != 0 ==> specGenuineTE6(s, parser, ret0.TTL)
+//@ ensures[C01+C05+C11.sound.er6]   ret0 != nil && specIsER6(parser) ==> specGenuineER6(s, parser, ret0.TTL)
 //@ ensures[C01.addr]        ret0 != nil ==> ret0.IP == specOuterSrc(parser)
 //@ ensures[C02.compl.te4]   forall(t, 0, 256, specGenuineTE4(s, parser, t) && specPlainTE4(parser) ==> ret0 != nil && int(ret0.TTL) == t)
 //@ ensures[C02.compl.te6]   forall(t, 0, 256, specGenuineTE6(s, parser, t) && specPlainTE6(parser) ==> ret0 != nil && int(ret0.TTL) == t)
@@ -184,6 +184,8 @@ func specGenuineER6(s *icmpDriver, p *packets.FrameParser, t uint8) bool {
 //@ requires[C10.send.open]  selb(isOpen, ref(s.sink))
 //@ requires[pre.past]     forall(k, 0, 256, s.sentProbes[k] <= now())
 //@ ensures[C06.once]      ret0 == nil ==> !old(specSent(s, ttl)) && !old(has(s.sentProbes, ttl)) && specSent(s, ttl) && specInRange(s, ttl)
+// the probe is registered (matchable by the receiver) before it is on the wire: a reply can never overtake its own bookkeeping
+//@ before Sink.WriteTo assert[C02+C05.send.registered] specSent(s, ttl)
 //@ ensures[C06.others]    forall(k, 0, 256, k != int(ttl) ==> s.sentProbes[k] == old(s.sentProbes[k]) && has(s.sentProbes, k) == old(has(s.sentProbes, k)))
 //@ ensures[C05.stamp]     ret0 == nil ==> wrN == old(wrN)+1 && s.sentProbes[ttl] <= wrClock && s.sentProbes[ttl] >= old(now())
 //@ ensures[C05.past]      forall(k, 0, 256, s.sentProbes[k] <= now())
